@@ -403,13 +403,6 @@ func exerciseHelpers(b []byte, f *c19File, what string) *Violation {
 	return nil
 }
 
-func maxInt(a, b int) int {
-	if a > b {
-		return a
-	}
-	return b
-}
-
 type c19QueryOut struct {
 	rows []map[string]any
 	err  error
